@@ -42,6 +42,7 @@ type Parked struct {
 	Point string
 	Conn  int
 	Req   int // arrival number (0 = none)
+	Fid   int // cb_destroy: the fid whose destruction the callback is told of
 	req   *go9p.SrvReq
 	conn  *go9p.Conn
 	ch    chan Cmd
@@ -146,7 +147,11 @@ func (c *Ctl) hook(point string, conn *go9p.Conn, req *go9p.SrvReq, nums []int) 
 
 // park blocks the calling goroutine until the controller releases it.
 func (c *Ctl) park(point string, conn *go9p.Conn, req *go9p.SrvReq) Cmd {
-	p := &Parked{Point: point, req: req, conn: conn, ch: make(chan Cmd)}
+	return c.parkFid(point, conn, req, 0)
+}
+
+func (c *Ctl) parkFid(point string, conn *go9p.Conn, req *go9p.SrvReq, fid int) Cmd {
+	p := &Parked{Point: point, req: req, conn: conn, Fid: fid, ch: make(chan Cmd)}
 	c.mu.Lock()
 	if point == "proc_start" && req != nil && req.Tc.Type == go9p.Tversion {
 		c.idOfLocked(req, conn) // Tversion runs inside the receive goroutine, before recv_advance
@@ -182,12 +187,14 @@ func StartWatchdog() {
 			for {
 				time.Sleep(time.Second)
 				h := atomic.LoadInt64(&heartbeat)
-				if h != last || atomic.LoadInt64(&waitDepth) == 0 {
+				if h != last || h == 0 {
 					last, since = h, 0
 					continue
 				}
 				since++
-				if since >= secs {
+				// outside Wait the driver itself may be waiting for a lock of the library (its snapshot functions
+				// take the connection lock): the same stall, seen later
+				if (atomic.LoadInt64(&waitDepth) > 0 && since >= secs) || since >= secs+10 {
 					buf := make([]byte, 8<<20)
 					n := runtime.Stack(buf, true)
 					if p := os.Getenv("VERIF_STALL"); p != "" {
@@ -270,6 +277,26 @@ func (c *Ctl) GrantCmd(point string, req int, conn int, cmd Cmd) error {
 		c.Conns[p.Conn].Writing = false
 	}
 	return nil
+}
+
+// ReleasePoint releases the first goroutine parked at the given point (whatever its request) and waits for quiescence.
+func (c *Ctl) ReleasePoint(point string, cmd Cmd) bool {
+	c.mu.Lock()
+	var p *Parked
+	for i, q := range c.parked {
+		if q.Point == point {
+			p = q
+			c.parked = append(c.parked[:i], c.parked[i+1:]...)
+			break
+		}
+	}
+	c.mu.Unlock()
+	if p == nil {
+		return false
+	}
+	p.ch <- cmd
+	c.Wait()
+	return true
 }
 
 func (c *Ctl) NextPayload() uint64 { c.payload++; return c.payload }
